@@ -793,3 +793,99 @@ func RemoveAll(path string) error {
 
 // UnixPathExists reports whether a unix-socket file is present.
 func (k *Kernel) UnixPathExists(path string) bool { return k.unixPaths[path] }
+
+// GetsockoptInt is getsockopt(2) for integer options. SO_ERROR returns and
+// clears the pending socket error; options set earlier read back; the rest is 0.
+func GetsockoptInt(fd, level, opt int) (int, error) {
+	vsched.Yield("sys:getsockopt")
+	k := kern()
+	e, errno := k.frameworkFd("getsockopt", fd)
+	if e == nil {
+		return -1, errno
+	}
+	if level == unix.SOL_SOCKET && opt == unix.SO_ERROR {
+		v := 0
+		switch e.file.kind {
+		case kUDP:
+			v = int(e.file.udp.soErr)
+			e.file.udp.soErr = 0
+		case kStream:
+			v = int(e.file.sock.soError)
+			e.file.sock.soError = 0
+		}
+		k.use("getsockopt", fd, fmt.Sprintf("SO_ERROR=%d", v))
+		return v, nil
+	}
+	name := fmt.Sprintf("opt-%d-%d", level, opt)
+	if level == unix.SOL_SOCKET {
+		switch opt {
+		case unix.SO_REUSEPORT:
+			name = "reuseport"
+		case unix.SO_REUSEADDR:
+			name = "reuseaddr"
+		case unix.SO_SNDBUF:
+			name = "sndbuf"
+		case unix.SO_RCVBUF:
+			name = "rcvbuf"
+		}
+	}
+	k.use("getsockopt", fd, name)
+	return e.file.opts[name], nil
+}
+
+// Getsockname is getsockname(2).
+func Getsockname(fd int) (unix.Sockaddr, error) {
+	k := kern()
+	e, errno := k.frameworkFd("getsockname", fd)
+	if e == nil {
+		return nil, errno
+	}
+	switch e.file.kind {
+	case kStream:
+		return e.file.sock.Local, nil
+	case kListener, kUnbound:
+		if e.file.lst != nil {
+			return e.file.lst.addr, nil
+		}
+	case kUDP:
+		return e.file.udp.bound, nil
+	}
+	return nil, unix.ENOTSOCK
+}
+
+// Getpeername is getpeername(2).
+func Getpeername(fd int) (unix.Sockaddr, error) {
+	k := kern()
+	e, errno := k.frameworkFd("getpeername", fd)
+	if e == nil {
+		return nil, errno
+	}
+	switch e.file.kind {
+	case kStream:
+		return e.file.sock.Remote, nil
+	case kUDP:
+		if e.file.udp.connected != nil {
+			return e.file.udp.connected, nil
+		}
+	}
+	return nil, unix.ENOTCONN
+}
+
+// Shutdown is shutdown(2) on a stream socket.
+func Shutdown(fd int, how int) error {
+	vsched.Yield("sys:shutdown")
+	k := kern()
+	e, errno := k.frameworkFd("shutdown", fd)
+	if e == nil {
+		return errno
+	}
+	if e.file.kind != kStream {
+		k.use("shutdown", fd, "ENOTCONN")
+		return unix.ENOTCONN
+	}
+	if how == unix.SHUT_WR || how == unix.SHUT_RDWR {
+		e.file.sock.shutdownWrite()
+	}
+	k.use("shutdown", fd, "0")
+	return nil
+}
